@@ -31,6 +31,9 @@ type queueObs struct {
 	cap   int
 	snaps []snap
 	added int
+	// mutated: a snapshot whose contents changed after GetMessages had returned it (it shares
+	// storage with the queue)
+	mutated string
 }
 
 func init() {
@@ -40,9 +43,11 @@ func init() {
 		q := circularQueue.NewCircularQueue(cp)
 		o := &queueObs{cap: cp}
 		var out []string
+		var held [][]handler.Message
 		for _, op := range t[2:] {
 			if op == "g" {
 				ms := q.GetMessages()
+				held = append(held, ms)
 				var ids []string
 				s := snap{held: len(q.Items)}
 				for _, m := range ms {
@@ -55,6 +60,14 @@ func init() {
 			} else {
 				q.Add(idMsg(atoi(op[1:])))
 				o.added++
+			}
+		}
+		// the snapshots taken earlier must still read as they did when they were returned
+		for k, ms := range held {
+			for j := range ms {
+				if j < len(o.snaps[k].ids) && msgID(ms[j]) != o.snaps[k].ids[j] {
+					o.mutated = fmt.Sprintf("snapshot %d read %v when it was returned; after later additions its element %d reads %d", k, o.snaps[k].ids, j, msgID(ms[j]))
+				}
 			}
 		}
 		return &Obs{Line: strings.Join(out, " "), Data: o}
@@ -165,6 +178,9 @@ func init() {
 			o, ok := ob.Data.(*queueObs)
 			if !ok {
 				return "panic: " + ob.Panic
+			}
+			if o.mutated != "" {
+				return o.mutated
 			}
 			for k, s := range o.snaps {
 				if len(s.ids) > o.cap {
